@@ -142,6 +142,32 @@ fn f_x25519_noncanonical_pk_alias() -> bool {
     }
 }
 
+/// NIST private key of a short length (24..31 bytes for P-256) decodes (zero-padded) and re-encodes to 32 bytes
+fn f_p256_sk_short_slice() -> bool {
+    let short = [1u8; 24];
+    match PrivateKey::<p256::NistP256>::deserialize(&short) {
+        Ok(k) => k.serialize().as_slice() != &short[..],
+        Err(_) => false,
+    }
+}
+
+/// OPRF element (voprf's NIST element decoder) with the SEC1 compact tag 0x05 in a RegistrationRequest
+fn f_p256_oprf_element_compact_tag() -> bool {
+    let mut hits = 0;
+    for _ in 0..16 {
+        let s = ClientRegistration::<P>::start(&mut OsRng, b"pw").unwrap();
+        let mut bytes = s.message.serialize().to_vec();
+        bytes[0] = 0x05;
+        if let Ok(m) = RegistrationRequest::<P>::deserialize(&bytes) {
+            if m.serialize().as_slice() != bytes.as_slice() {
+                hits += 1;
+            }
+        }
+    }
+    println!("compact-tag OPRF elements accepted: {}/16", hits);
+    hits > 0
+}
+
 macro_rules! finding {
     ($name:ident) => {
         #[test]
@@ -158,4 +184,6 @@ mod present {
     finding!(f_p256_pk_compact_tag);
     finding!(f_x25519_small_order_pk);
     finding!(f_x25519_noncanonical_pk_alias);
+    finding!(f_p256_sk_short_slice);
+    finding!(f_p256_oprf_element_compact_tag);
 }
